@@ -267,7 +267,7 @@ func (q *seqModel) apply(it cutItem) {
 	if (it.rec.state == opProgrammed || it.rec.state == opFailed) && !it.rec.unacked {
 		return // acknowledged: already part of the model
 	}
-	v, en, _ := q.m.Expect(it.rec.op)
+	v, en, why := q.m.Expect(it.rec.op)
 	switch v {
 	case VProgram:
 		q.m.Apply(it.rec.op, en)
@@ -278,6 +278,13 @@ func (q *seqModel) apply(it cutItem) {
 		}
 	case VHold:
 		q.held[it.rec.op.GetId()] = it.rec
+	case VFail:
+		// An unanswered REPLACE whose target is gone NOW may have been received while the target still existed
+		// (a later, acknowledged DELETE of the same request is already part of the model): it was held for its
+		// unresolved reference then and stays held until something retries it. Follow the implementation.
+		if why == "replace of missing entry" && q.m.FwdRefs && en != nil && !q.m.Resolvable(en) && q.implHeld[it.rec.op.GetId()] {
+			q.held[it.rec.op.GetId()] = it.rec
+		}
 	case VEither:
 		// unspecified validity: it may or may not have been accepted - follow the implementation
 		if en != nil && q.impl != nil {
